@@ -4,7 +4,7 @@
 TIER=$1; shift
 cd "$(dirname "$0")/.."
 for s in "$@"; do
-  for p in C01 C02 C03 C04 C05 C06 C10 C11 C12 C14 C15; do
+  for p in ${SWEEP_PROPS:-C01 C02 C03 C04 C05 C06 C10 C11 C12 C13 C14 C15}; do
     t0=$(date +%s)
     VERIF_SEED=$s ./check $p --tier $TIER > /tmp/sweep.$$.log 2>&1
     rc=$?
